@@ -94,7 +94,8 @@ func init() {
 				}
 			}
 		}
-		for k, srt := range ex.keySort {
+		for _, k := range sortedKeys(ex.keySort) {
+			srt := ex.keySort[k]
 			if strings.HasPrefix(k, "F|github.com/google/gopacket/layers.") || strings.HasPrefix(k, "F|github.com/google/gopacket.DecodingLayerParser|") {
 				nh := ex.freshConst("dec", srt)
 				if wf := wfFact(k, nh, top); wf != "" {
